@@ -11,12 +11,14 @@ LEVEL = "model_checking"
 def run(ctx):
     ctx.rule = ("MC: greedy tokeniser model on all inputs over {0,1} up to %d bytes and ALL periodic inputs (periods 1..6, every "
                 "pattern, lengths up to %d) at scaled constants. impl->spec: one event {fmt,n,p,clen} per real compression; "
-                "periods %s x 2 pattern kinds (random first period / two-letter first period) x 2 total lengths (2p+37; "
-                "p+4096+19 for LZ10, p+4*4096+19 for LZ13) x both formats, plus the expansion bound (and every period TLC finds) "
+                "periods %s x 5 pattern families (random first period / two-letter / noise with one 18..48-byte block twice / "
+                "records sharing a >=18-byte prefix / k copies of a shorter block + noise tail; the last three for p >= 40) x 2 "
+                "total lengths (2p+37; p+4096+19 for LZ10, p+4*4096+19 for LZ13) x both formats, plus a long total "
+                "(24000*sqrt(p) clamped to 2*10^4..10^6 bytes) for 10 fixed and %d seeded random periods, plus the expansion bound (and every period TLC finds) "
                 "on all inputs over {a,b} up to %d and {a,b,c} up to %d and the structured C08/C09 families. "
                 "Non-trivial = event with a period (claimed by construction or found by TLC)."
                 % (ctx.pick(11, 15), ctx.pick(40, 100), ctx.pick("1..40, 255..257, 1000, 2048, 4090..4096", "1..4096 (all)"),
-                   ctx.pick(10, 13), ctx.pick(6, 8)))
+                   ctx.pick(50, 1000), ctx.pick(10, 13), ctx.pick(6, 8)))
     b = ctx.build("release", c08.BIN)
     r = ctx.tlc("MC_LZGreedy", "MC_LZGreedy.cfg", env={"VERIF_TIER": ctx.tier}, workers=6, timeout=ctx.pick(300, 1500))
     if r.distinct == 0:
@@ -30,6 +32,13 @@ def run(ctx):
         ctx.violation({"dir": "impl->spec", "op": ev["fmt"] + ".compress", "n": ev["n"], "p": ev["p"], "pk": ev["pk"],
                        "clen": ev["clen"], "ok": ev["ok"]},
                       {"event": ev, "note": "pattern: seeded by (seed,p,pk,n) in mvh_lz size; re-run ./check C10 with the same seed"})
+    if ctx.viol:
+        summ = {}
+        for v in ctx.viol:
+            k = "%s pattern-kind %s %s" % (v["op"], v["pk"], "n>=20000" if v["n"] >= 20000 else "n<20000")
+            summ[k] = summ.get(k, 0) + 1
+        ctx.extra["violation_summary"] = summ
+        ctx.log("violation summary: %s" % summ)
     ctx.traces += len(events)
     ctx.evaluations += len(events)
     tally = rep["tally"]
@@ -41,7 +50,8 @@ def run(ctx):
         if e["p"] == 4096:
             ctx.sample({k: e[k] for k in ("fmt", "n", "p", "pk", "clen")}, cap=4)
     ctx.exhaustive = True
-    ctx.assumptions += ["effectiveness bound checked for %d periods x 2 lengths x 2 pattern families x 2 formats" % ctx.extra["periods_covered"],
+    ctx.extra["longest_total"] = max(e["n"] for e in per)
+    ctx.assumptions += ["effectiveness bound checked for %d periods x 2 lengths x 5 pattern families x 2 formats, long totals for a sample of periods" % ctx.extra["periods_covered"],
                         "scaled model: W=6, match lengths 3..5 (H=4,R=2) and 3..8 (H=8,R=4)",
                         "release profile only (sizes do not depend on the arithmetic profile)"]
 
